@@ -267,22 +267,25 @@ func ruleLoopsBounded(w *World, r *RuleResult) {
 	if e := w.fn("(*Context).Exp"); e != nil {
 		key := "(*Context).Exp | series length cap"
 		capped := false
-		for _, b := range e.Blocks {
-			iff, ok := b.Instrs[len(b.Instrs)-1].(*ssa.If)
-			if !ok {
-				continue
-			}
-			bo, ok := iff.Cond.(*ssa.BinOp)
-			if !ok || bo.Op != token.GTR {
-				continue
-			}
-			k, isK := bo.Y.(*ssa.Const)
-			if !isK || k.Value == nil || !strings.Contains(w.exprOf(e, bo.X).String(), "math.Ceil") {
-				continue
-			}
-			// true edge returns an error; the loops using n are dominated by the false side
-			if rt, ok := b.Succs[0].Instrs[len(b.Succs[0].Instrs)-1].(*ssa.Return); ok && w.isErrorReturn(rt) {
-				capped = true
+		// in Exp itself or in an unexported helper the computation of the count was moved to
+		for _, ef := range w.closureFuncs(e) {
+			for _, b := range ef.Blocks {
+				iff, ok := b.Instrs[len(b.Instrs)-1].(*ssa.If)
+				if !ok {
+					continue
+				}
+				bo, ok := iff.Cond.(*ssa.BinOp)
+				if !ok || bo.Op != token.GTR {
+					continue
+				}
+				k, isK := bo.Y.(*ssa.Const)
+				if !isK || k.Value == nil || !strings.Contains(w.exprOf(ef, bo.X).String(), "math.Ceil") {
+					continue
+				}
+				// true edge returns an error; the loops using n are dominated by the false side
+				if rt, ok := b.Succs[0].Instrs[len(b.Succs[0].Instrs)-1].(*ssa.Return); ok && w.isErrorReturn(rt) {
+					capped = true
+				}
 			}
 		}
 		if capped {
